@@ -23,12 +23,14 @@ OPS = [
     (r"Ordering::Acquire", "Ordering::Relaxed"), (r"Ordering::Release", "Ordering::Relaxed"),
     (r"== UNLOCKED", "== TERMINATED"), (r"v < LOCKED", "v <= LOCKED"),
     (r"Poll::Pending$", "Poll::Ready(Ok(()))"),
+    (r"wake\(this, UNLOCKED\)", "wake(this, TERMINATED)"), (r"wake\(this, TERMINATED\)", "wake(this, UNLOCKED)"),
+    (r"Signal::recv\(self\.0\)", "(*self.0).assume_init()"), (r"\.ptr\.read\(\)", ".ptr.read_twice__()"),
     (r"\.is_none\(\)", ".is_some()"), (r"usize::MAX", "0"), (r"> 0", ">= 0"), (r"== 0", "!= 0"), (r"forget\(d\);", ""),
 ]
 DELETABLE = re.compile(r"^\s*(drop\(internal\);|internal\.terminate_signals\(\);|internal\.queue\.clear\(\);|this\.state = [^;]+;|self\.wait_list\.clear\(\);|"
                        r"unsafe \{ data\.assume_init_drop\(\) \}|this\.sig\.register_waker\(cx\.waker\(\)\);|fence\(Ordering::Acquire\);|"
                        r"internal\.push_(send|recv)\([^;]*\);|\*data = Some\([^;]*\);|self\.recv_blocking = (true|false);|internal\.(recv|send)_count = 0;|"
-                       r"this\.sig = Signal::new_async\(\);|self\.terminated = true;|unsafe \{\s*$)")
+                       r"this\.sig = Signal::new_async\(\);|Signal::terminate\(self\.0\)|Self::wake\(this, [A-Z]+\);|\(\*this\)\.ptr\.write\(d\);|_ = self\.ptr\.read\(\);|thread\.unpark\(\);|w\.wake\(\);|self\.terminated = true;|unsafe \{\s*$)")
 
 
 def mutants():
